@@ -22,6 +22,13 @@ RULE = (
     "closure and then a witness violation. A class is (deciding non-version constraint) or (operator pair, answer); "
     "distinct_nontrivial counts classes observed."
 )
+LEVEL_TEXT = (
+    "Bounded exhaustive: every unordered pair of the stated finite atom alphabet is executed on the real "
+    "atom.intersects in both argument orders; symmetry is judged directly, completeness and witnesses by brute force "
+    "over a finite package universe with the implementation's own atom.match (as the property is stated), a missing "
+    "witness only after a second search in a larger closure; nothing is sampled. " + RULE
+)
+TIME_CAP = {"thorough": 1500}
 ASSUMPTIONS = [
     "witnesses are judged by the implementation's own atom.match (as the property says), so the check is independent of how '=v*' is defined; it demands only that intersects agrees with match",
     "a missing witness is reported only after a search of the depth-3 closure; closure = {change revision to none/r0..r3/rev+1, append _alpha1/_p1/_p0 suffix, append .0/.1 component, append digit 0 to the last number} applied to the pool versions; "
@@ -468,8 +475,11 @@ CLASSIFIERS = {
 }
 
 BOUNDS = {
-    "quick": "41 operator/version heads (pool 1, 1.1, 1-r1, 1.1-r2, 2, 1_p1) x 5 slot forms x 3 repo forms x 4 USE forms = 2461 atoms -> "
-    "all 3.03 M unordered pairs, both argument orders; witness universe = depth-2 closure versions x 2 slots x 2 sub-slots x 2 repos x 4 USE states",
-    "thorough": "62 heads (pool of 9 versions incl. 10) x 7 slot forms x 3 repo forms x 11 USE forms (incl. (+)/(-) defaults) = 14323 atoms -> all unordered pairs; "
-    "universe additionally has packages lacking the flags in IUSE",
+    "quick": "41 operator/version heads (none; < <= = ~ >= > =* x pool 1, 1.1, 1-r1, 1.1-r2, 2, 1_p1) x 5 slot/sub-slot forms x 3 repo forms x "
+    "4 USE forms (none, [x], [-x], [x,y]) + 1 other-key atom = 2 461 atoms -> all 3 029 491 unordered pairs incl. a=a, both argument orders; "
+    "witness universe 8 902 packages = 278 versions (depth-2 closure of the pool) x 2 slots x 2 sub-slots x 2 repos x 4 USE states; "
+    "re-search universe 1 344 versions (depth 3)",
+    "thorough": "61 heads (pool of 9 versions, adds 1.0, 1-r2, 10) x 7 slot/sub-slot forms x 3 repo forms x 11 USE forms (adds [x,-y], [-x,-y] and "
+    "(+)/(-) default forms) + 1 = 14 092 atoms -> all 99.3 M unordered pairs (44 % of the both-USE pairs excluded as mixed default/no-default); "
+    "witness universe 28 809 packages = 400 versions x 8 x 9 IUSE/USE states (incl. flags absent from IUSE); time cap 1500 s",
 }
